@@ -789,3 +789,14 @@ PROPS = {
                    "statement speaks of per-node overrides only -- noted, not claimed either way"],
     ),
 }
+
+# these units were tuned with their `requires(bounds && is_fresh(..))` conjunctions as written; the extractor's generic split of such clauses makes
+# trimesh2.fill.loop slower by more than an order of magnitude (52 s -> no answer in 900 s), so the module opts out
+from fv.extract import Unit as _Unit
+for _v in list(globals().values()):
+    if isinstance(_v, _Unit):
+        _v.split_fresh = False
+for _lst in GROUPS.values():
+    for _g in _lst:
+        for _u in _g.units:
+            _u.split_fresh = False
